@@ -51,6 +51,13 @@ var c15Paths = []string{
 	"$.**{1}[*].a",
 	"$.**{last} ? (@ > 1)",
 	"$.** ? (@.a > 1)",
+	// .** nested inside a filter below .**: the structural-error switch is
+	// restored to what the outer .** set, not to its mode default
+	"$.** ? (exists(@.**{1}.a)).a",
+	"$.**{1} ? (exists(@.** ? (@ == 1))).*",
+	"$.** ? (exists(@.**{0 to 1}.a))[*]",
+	"$.**{1}.**{1}.a",
+	"$.** ? (@.**{1} > 1).a",
 }
 
 // C15_Paths: wildcard and recursive-descent paths on every JSON tree shape
